@@ -100,6 +100,7 @@ Definition FFCDHKey_unpack (data : bytes) : res ffcdh_key :=
   let view := data in
   if negb (beqb (slice None (Some 4) view) c_FFCDH_KEY_MAGIC) then Raise ValueError else
   let key_length := le_val (slice (Some 4) (Some 8) view) in
+  if k_ffcdhkey_short (len view) key_length then Raise ValueError else
   let field_order := slice (Some 8) (Some (8 + key_length)) view in
   let view := slice (Some (8 + key_length)) None view in
   let generator := slice None (Some key_length) view in
